@@ -393,7 +393,7 @@ impl PackageBuilder {
             .to_string_lossy()
             .to_string();
 
-        let (cpio_path, mut dir) = if dest.starts_with('.') {
+        let mut dir = if dest.starts_with('.') {
             let relative_parent =
                 parent
                     .strip_prefix(".")
@@ -401,17 +401,17 @@ impl PackageBuilder {
                         path: dest.clone(),
                         desc: "no parent directory found",
                     })?;
-            (
-                dest.to_string(),
-                format!("/{}", relative_parent.to_string_lossy()),
-            )
+            format!("/{}", relative_parent.to_string_lossy())
         } else {
-            (format!(".{}", dest), parent.to_string_lossy().to_string())
+            parent.to_string_lossy().to_string()
         };
         // directory names end in exactly one slash, also for files directly below the root
         if !dir.ends_with('/') {
             dir.push('/');
         }
+        // the name in the archive is the recorded path prefixed with ".", whatever spelling of
+        // it ("/a/", "./a") the destination used
+        let cpio_path = format!(".{}{}", dir, base_name);
 
         let mut hasher = sha2::Sha256::default();
         hasher.update(&content);
